@@ -2,6 +2,7 @@ package mvp8_0
 
 import (
 	"fmt"
+	"sync"
 
 	co "github.com/teivah/majorana/common/coroutine"
 	"github.com/teivah/majorana/common/latency"
@@ -50,6 +51,8 @@ type cacheController struct {
 
 	// Transient
 	post func()
+	// l3Mu is the L3 line lock held by the read in progress, if any
+	l3Mu *sync.Mutex
 }
 
 func newCacheController(id int, ctx *risc.Context, mmu *memoryManagementUnit, msi *msi, l3 *comp.LRUCache) *cacheController {
@@ -261,10 +264,12 @@ func (cc *cacheController) coRead(r ccReadReq) ccReadResp {
 								if !mu.TryLock() {
 									return ccReadResp{}
 								}
+								cc.l3Mu = mu
 
 								return cc.read.ExecuteWithCheckpointAfter(r, latency.L3Access, func(r ccReadReq) ccReadResp {
 									shouldEvict := cc.pushLineToL3(l3Addr, l3Data)
 									mu.Unlock()
+									cc.l3Mu = nil
 									if shouldEvict != nil {
 										pending := cc.msi.evictL3ExtraCacheLine(cc.id, shouldEvict.Boundary[0])
 										cc.read.Checkpoint(func(r ccReadReq) ccReadResp {
@@ -490,6 +495,11 @@ func (cc *cacheController) writeToL3(l1Addr comp.AlignedAddress, data []int8) {
 func (cc *cacheController) flush() {
 	cc.read.Reset()
 	cc.write.Reset()
+	if cc.l3Mu != nil {
+		// The aborted read was holding an L3 line lock
+		cc.l3Mu.Unlock()
+		cc.l3Mu = nil
+	}
 	for k, sem := range cc.l1RLockSems {
 		sem.RUnlock()
 		delete(cc.l1RLockSems, k)
